@@ -20,6 +20,14 @@
 #define __CPROVER_cover(c) ((void)0)
 #endif
 
+/* reachability goals: under --cover they are cover statements; in dfcc-instrumented builds (where --cover finds no
+   goals) they are written as assertions that must FAIL */
+#ifdef COVER_BY_ASSERT
+#define COVER_GOAL(c) __CPROVER_assert(!(c), "covergoal " #c)
+#else
+#define COVER_GOAL(c) __CPROVER_cover(c)
+#endif
+
 /* C++ exceptions are abstracted to a ghost flag: `throw E(...)` becomes "set flag, return". */
 extern bool verif_thrown;
 #define VERIF_THROW(what) (verif_thrown = true)
